@@ -40,10 +40,12 @@ inductive Kind where
   | elem | text | cdata
 deriving DecidableEq, Repr
 
-/-- exception classes; `KeyError` (removeAttribute of an absent attribute) and `Other`
+/-- exception classes; `RecursionError` is raised only by the document layer (DomDoc: subtree deeper
+    than the traversal budget); `KeyError` (removeAttribute of an absent attribute) and `Other`
     (protocol misuse: an id that is already in use; IndexError) complete the enum -/
 inductive Err where
   | IllegalChild | IllegalText | AttributeError | ValueError | NotFound | Hierarchy | KeyError | Other
+  | RecursionError
 deriving DecidableEq, Repr
 
 structure NodeRec where
